@@ -1,5 +1,6 @@
 (* C02 correspondence cases: what the implementation answered, to be compared with the model *)
-From FB Require Export C02.Model C02.Encode Base.Run.
+From FB Require Export C02.Model C02.Encode C02.Frames C02.Class Base.Run.
+From Coq Require Export Uint63.
 Local Open Scope Z_scope.
 
 (* run-length encoded bodies and byte strings, so that 65535-byte methods stay small as text;
@@ -17,6 +18,30 @@ Fixpoint expand_bytes (rb : list (N * N)) : list N :=
   | (n, x) :: r => repeat x (N.to_nat n) ++ expand_bytes r
   end.
 
+
+(* byte strings of whole-class cases are packed 7 bytes per primitive integer literal (coqc spends its
+   time parsing numerals); they are unpacked here, the model runs on lists of bytes *)
+Definition byte_of_word (w : int) (k : nat) : N :=
+  Z.to_N (Uint63.to_Z (Uint63.land (Uint63.lsr w (Uint63.of_Z (Z.of_nat (8 * k)))) 255%uint63)).
+Fixpoint bytes_of_word (w : int) (n : nat) : list N :=
+  match n with
+  | O => []
+  | S n' => byte_of_word w n' :: bytes_of_word w n'
+  end.
+Fixpoint unpack (total : nat) (ws : list int) : list N :=
+  match ws with
+  | [] => []
+  | w :: ws' =>
+      match ws' with
+      | [] => bytes_of_word w total
+      | _ => bytes_of_word w 7 ++ unpack (total - 7) ws'
+      end
+  end.
+Definition packed := (N * list int)%type.
+Definition unpacked (p : packed) : list N := unpack (N.to_nat (fst p)) (snd p).
+Definition lookup (tbl : list (list N)) (k : N) : list N := nth (N.to_nat k) tbl [].
+Inductive kanswer := KOk (bs : packed) | KErr | KPanic.
+
 (* positions in the implementation's answer are printed as naturals (N) *)
 Record itables := { i_exc : list (N * N * N); i_offs : list N; i_ranges : list (N * N) }.
 Inductive ianswer := IOk (code : list (N * N)) (t : itables) | IErr | IPanic.
@@ -29,10 +54,32 @@ Inductive case :=
     (* the constant pool of a written class, in file order, and its constant_pool_count *)
 | CLdc (is2 : bool) (index : N) (form : N)
     (* an ldc instruction in the written code: loadable is long/double, pool index, opcode *)
-| CFrames (fs : list (option N)) (written : N)
-| CBsm (entries : list (list N)).
+| CWriteF (hasmax : bool) (b : list rle) (last : option label) (tb : tables) (fs : list (N * sframe))
+    (r : ianswer) (sm : option (list N))
+    (* a method whose instructions carry stack map frames: fs = (instruction index, frame) in
+       instruction order, Object types with the pool index of their class in the written file;
+       sm = the body of the StackMapTable attribute of the written method, if there is one *)
+| CBsm (entries : list (list N))
     (* the BootstrapMethods table of a written class, in file order (method_ref, arguments) *)
-    (* which instructions of a method carry a frame in the tree; number of stack_map_frame entries written *)
+| CClass (strings : list packed) (t : (N -> list N) -> cclass) (r : kanswer).
+    (* a whole tree (strings by index into the table) and the class file duke::write_class produced *)
+
+(* (instruction index, frame) pairs, ascending -> one optional frame per instruction *)
+Fixpoint dense (n : nat) (k : N) (fs : list (N * sframe)) : list (option sframe) :=
+  match n with
+  | O => []
+  | S n' =>
+      match fs with
+      | (j, f) :: r => if N.eqb j k then Some f :: dense n' (N.succ k) r else None :: dense n' (N.succ k) fs
+      | [] => None :: dense n' (N.succ k) []
+      end
+  end.
+Definition obytes_eqb (a b : option (list N)) : bool :=
+  match a, b with
+  | Some x, Some y => list_eqb N.eqb x y
+  | None, None => true
+  | _, _ => false
+  end.
 
 Definition zeqN (z : Z) (n : N) : bool := z =? Z.of_N n.
 Definition exc_eqb (a : Z * Z * Z) (b : N * N * N) : bool :=
@@ -106,5 +153,21 @@ Definition check (c : case) : bool :=
       | LDC2_W _ => (form =? 20)%N
       end
   | CBsm es => check_bsm es
-  | CFrames fs n => (N.of_nat (length (written_frames fs (map (fun _ => 0%Z) fs))) =? n)%N
+  | CClass strings t r =>
+      let tbl := map unpacked strings in
+      match write_class (t (lookup tbl)), r with
+      | OK bs, KOk p => list_eqb N.eqb bs (unpacked p)
+      | ERR, KErr => true
+      | PANIC, KPanic => true
+      | _, _ => false
+      end
+  | CWriteF hasmax rb last tb fs r sm =>
+      let b := expand_body rb in
+      match write_code_f hasmax b last tb (dense (length b) 0%N fs), r with
+      | Some (OK (w, _, rt, sm')), IOk code it =>
+          list_eqb N.eqb w (expand_bytes code) && tables_eqb rt it && obytes_eqb sm' sm
+      | Some ERR, IErr => true
+      | Some PANIC, IPanic => true
+      | _, _ => false
+      end
   end.
